@@ -77,7 +77,7 @@ def _tag_strategy():
 @st.composite
 def st_ordered_check(draw, tag, t, pos, clean, role="column"):
     kinds = ["eq", "ne", "gt", "ge", "lt", "le", "in_range", "isin", "notin", "ew_gt", "vec_ge", "strat_le",
-             "ext_ge", "gt", "lt"]  # strict bounds twice: their boundary handling is the subtle part
+             "ext_ge", "gt", "lt", "notin"]  # strict bounds / exclusion lists twice: boundary handling is the subtle part
     if clean and role in ("index", "level"):
         kinds = [k for k in kinds if k != "vec_ge"]
     if pos == 0:
@@ -112,7 +112,7 @@ def st_ordered_check(draw, tag, t, pos, clean, role="column"):
             lo = t + delta
             hi = lo + d2 + (0 if (imin and imax) else 2)
         return {"c": c, "lo": lo, "hi": hi, "imin": imin, "imax": imax}
-    others = draw(st.lists(st.integers(-4, 4).filter(lambda x: x != 0), min_size=0 if c == "isin" else 1,
+    others = draw(st.lists(st.sampled_from([-1, 1, -2, 2, -1, 1, 3, -3, 4, -4]), min_size=0 if c == "isin" else 1,
                            max_size=3, unique=True))
     if c == "isin":
         vs = sorted({t + o for o in others} | ({t} if consistent else {t + (delta or 2)}))
@@ -1003,7 +1003,7 @@ def _k_nul(family, case, disc):
 # --------------------------------------------------------------------- families
 
 FAMILIES = [
-    Family("field", evaluate, strategy=st_field_case, n_quick=110, n_thorough=1500, shards_quick=6,
+    Family("field", evaluate, strategy=st_field_case, n_quick=150, n_thorough=1500, shards_quick=6,
            shards_thorough=16, required_labels=["kind=series", "kind=column", "kind=index", "chain=2", "chain=3",
                                                 "nullable", "unique", "arg-none", "literal-metachar",
                                                 "check=ew_gt", "check=vec_ge", "check=strat_le", "check=ext_ge",
